@@ -1,6 +1,7 @@
 package main
 
 import (
+	"encoding/json"
 	"fmt"
 	"os"
 	"strconv"
@@ -41,9 +42,27 @@ func main() {
 		fmt.Fprintln(os.Stderr, "unknown property", id)
 		os.Exit(2)
 	}
+	replaySig := ""
+	if replay != "" {
+		// a replay file records the seed and tier of the run that produced it: generation is a function of the seed,
+		// so the same run is repeated and only the recorded finding is looked for
+		var rf struct {
+			Signature string `json:"signature"`
+			Seed      int64  `json:"seed"`
+			Tier      string `json:"tier"`
+		}
+		data, err := os.ReadFile(replay)
+		if err != nil || json.Unmarshal(data, &rf) != nil || rf.Signature == "" {
+			fmt.Fprintln(os.Stderr, "cannot read replay file", replay)
+			os.Exit(2)
+		}
+		seed, replaySig = rf.Seed, rf.Signature
+		if rf.Tier == "thorough" {
+			tier = "thorough"
+		}
+	}
 	c := &checkCtx{id: id, tier: tier, seed: seed, rng: newRng(seed), start: time.Now(),
-		distinct: map[string]bool{}, level: "proof"}
-	_ = replay
+		distinct: map[string]bool{}, level: "proof", replaySig: replaySig}
 	if err := buildTools(); err != nil {
 		c.addFinding(finding{Signature: "build-failed", Desc: err.Error(), NoInput: true,
 			Theorem: "go build of /repo", Replay: map[string]any{"cmd": "go build ./cmd/lox"}})
